@@ -454,6 +454,24 @@ func propCases(prop string, g *Gen, n int) []*Case {
 				}
 				extraRefs = []*Ref{{Kind: "recipe", R: &R{Op: "errno", I: []int64{n}}}, {Kind: "recipe", R: &R{Op: "foreignerrno", I: []int64{n}}}}
 			}
+			if i%25 == 21 {
+				// a mark taken from a reference without text (a text-less sentinel): the mark's message is the
+				// empty string, not the message of the error it is attached to
+				ref := []*R{{Op: "stdnew", S: []string{""}}, {Op: "uleaf", S: []string{"plain", ""}, I: []int64{0}, Strs: []string{}}, {Op: "new", S: []string{""}}}[g.r.intn(3)]
+				e := g.Tree(g.r.intn(3))
+				if _, isNil := specText(e); isNil {
+					e = g.Leaf(0)
+				}
+				r = &R{Op: "mark", Kids: []*R{e, ref}}
+				for k := g.r.intn(3); k > 0; k-- {
+					r = g.Wrapper(r, 1)
+				}
+				if _, isNil := specText(r); isNil {
+					r = &R{Op: "mark", Kids: []*R{e, ref}}
+				}
+				extraRefs = []*Ref{{Kind: "recipe", R: cloneR(ref)}, {Kind: "recipe", R: cloneR(e)}}
+				knowingOnly = true
+			}
 			refs := g.identityRefs(r, 3)
 			refs = append(refs, extraRefs...)
 			// the whole error rebuilt, and references of the same text but another type next to the right one
@@ -617,6 +635,8 @@ func propCases(prop string, g *Gen, n int) []*Case {
 			obs = append(obs, isObs(len(refs))[1:]...)
 			obs = append(obs, asObs()...)
 			obs = append(obs, Obs{Name: "hop", Procs: knowing1, Sub: append(names("root", "hints", "details", "keys", "domain", "flags", "codes", "os", "text", "safedetails"), isObs(len(refs))[1:]...)})
+			// at a process that knows none of the types the hidden error still shows in the safe details
+			obs = append(obs, Obs{Name: "hop", Procs: hops[2], Sub: names("text", "safedetails")})
 			add(&Case{R: r, Refs: refs, Obs: obs, Oracles: []string{"C07", "C07vis"}, Hops: hops})
 		}
 	case "C07M":
@@ -959,6 +979,45 @@ func propCases(prop string, g *Gen, n int) []*Case {
 					}
 				}
 			}
+		}
+		// a multi-cause node ends the direct chain, also when only one of its members is non-nil
+		// (errors.Join(err, f.Close()) with a nil close error), locally and after transfer
+		for i := 0; i < 24; i++ {
+			inner := g.Chain(1 + g.r.intn(5))
+			var kids []*R
+			switch i % 4 {
+			case 0:
+				kids = []*R{inner}
+			case 1:
+				kids = []*R{inner, {Op: "nil"}}
+			case 2:
+				kids = []*R{{Op: "nil"}, inner, {Op: "nil"}}
+			default:
+				kids = []*R{inner, g.Chain(1 + g.r.intn(3))}
+			}
+			r := &R{Op: []string{"join", "stdjoin"}[i/4%2], Kids: kids}
+			for k := g.r.intn(3); k > 0; k-- {
+				r = &R{Op: []string{"hint", "detail", "telemetry", "withstack"}[g.r.intn(4)], Kids: []*R{r}, S: []string{"outer " + g.word()}, Strs: []string{"outer.key"}}
+			}
+			o := append([]Obs{}, obs...)
+			o = append(o, Obs{Name: "hop", Procs: knowing1, Sub: obs}, Obs{Name: "hop", Procs: knowing2, Sub: obs})
+			add(&Case{R: r, Obs: o, Oracles: []string{"C19"}, Hops: [][][]string{knowing1}})
+		}
+		// a relay that knows none of the types, then a process that knows them: nothing of the chain is lost
+		for i := 0; i < 40; i++ {
+			r := g.Chain(1 + g.r.intn(8))
+			if i%2 == 0 {
+				r = &R{Op: "assert", Kids: []*R{r}}
+				for k := g.r.intn(3); k > 0; k-- {
+					r = &R{Op: []string{"hint", "detail", "withstack"}[g.r.intn(3)], Kids: []*R{r}, S: []string{"outer " + g.word()}}
+				}
+			}
+			relay := [][]string{g.proc(1), {}}
+			relay2 := [][]string{g.proc(2), {}}
+			o := append([]Obs{}, obs...)
+			o = append(o, Obs{Name: "hop", Procs: relay, Sub: append(append([]Obs{}, obs...), names("flags")...)},
+				Obs{Name: "hop", Procs: relay2, Sub: append(append([]Obs{}, obs...), names("flags")...)})
+			add(&Case{R: r, Obs: o, Oracles: []string{"C19"}})
 		}
 		for i := 0; i < n; i++ {
 			add(&Case{R: g.Chain(g.r.intn(12)), Obs: obs, Oracles: []string{"C19"}})
